@@ -583,6 +583,10 @@ class Frame:
                 base[k] = v
                 return
             raise Unsupported("list store with symbolic index")
+        from .values import GlobalDict, GlobalList
+        if isinstance(base, (GlobalDict, GlobalList)):
+            # module-level state outlives the call: results of later calls would depend on this one
+            self.ctx.oblige('frame:no-write-to-module-state:%s' % base.gname, False, 'frame')
         if isinstance(base, dict):
             base[self.hashable(key)] = v
             return
